@@ -143,6 +143,9 @@ func c18Ctx(variant int) map[string]interface{} {
 		"st":   c18Struct{Name: "s", Items: c18Spare(2, 1), Tags: c18SpareStr("t2", "t1"), Meta: map[string]interface{}{"k": "v"}, Ptr: inner, priv: []int{1, 2}},
 		"pst":  &c18Struct{Name: "ps", Items: c18Spare("b", "a"), Tags: c18SpareStr("u2", "u1"), Meta: map[string]interface{}{"k": c18Spare(1)}, Ptr: inner},
 		"s":    "hello world", "n": 5, "pn": inner,
+		"pairs": map[string]interface{}{"hello": "Ann", "": "-", "o": "0", " ": "_"},
+		"spk":   map[string]interface{}{"": 1, " ": 2, "0": 3, "00": 4, "-1": 5, "k": c18Spare(1)},
+		"row":   map[string]interface{}{"pairs": map[string]interface{}{"": "x", "l": "L"}, "spk": map[string]string{"": "e", "0": "z"}},
 		// lists and maps that hold typed nil pointers next to ordinary values
 		"nl": c18Spare(&c18Inner{N: 1}, (*c18Inner)(nil), "s", (*c18Counter)(nil), nil),
 		"nm": map[string]interface{}{"p": (*c18Inner)(nil), "l": c18Spare((*c18Struct)(nil), 2), "q": nil},
@@ -272,7 +275,13 @@ func c18Templates(r *core.Rand) (map[string]string, bool) {
 	srcs := map[string]string{"inc": "{% set got = got|default([])|merge([1]) %}{% set xs = [] %}{% for i in got %}{% set i = 0 %}{% endfor %}{{ got|sort|reverse|join }}{{ passed|sort|join }}",
 		"lib": "{% macro mut(a, b) %}{% set a = a|merge([7])|sort %}{% set b = b|reverse %}{{ a|join }}{{ b|join }}{% endmacro %}"}
 	var t string
-	switch r.Intn(19) {
+	switch r.Intn(20) {
+	case 19:
+		// maps of the caller's with unusual keys (empty, blank, digits) handed to filters and functions as an argument
+		pv := []string{"pairs", "row.pairs", "spk", "row.spk", "m", "tm"}[r.Intn(6)]
+		args := []string{"replace(%P)", "merge(%P)", "default(%P)", "format(%P)", "join(%P)", "split(%P)", "slice(%P)", "date(%P)", "number_format(%P)", "round(%P)", "trim(%P)", "replace(%P, %P)", "replace('a', %P)", "sort(%P)", "json_encode(%P)", "url_encode(%P)", "striptags(%P)", "first(%P)", "keys(%P)", "length(%P)"}
+		a1, a2 := strings.ReplaceAll(args[r.Intn(len(args))], "%P", pv), strings.ReplaceAll(args[r.Intn(4)], "%P", pv)
+		t = "{{ s|" + a1 + " }}{{ " + v + "|" + a2 + " }}{{ s|replace(" + pv + ") }}{{ " + pv + "|length }}{{ max(" + pv + ") }}{{ merge(" + pv + ", " + pv + ")|length }}{{ cycle(" + pv + ", 1) }}{{ range(1, 2, " + pv + ")|length }}{{ date(" + pv + ") }}"
 	case 17, 18:
 		// methods with pointer receivers that change their receiver, called on values the caller holds by value
 		cv := []string{"cs", "board.Counters", "ca", "cm"}[r.Intn(4)]
